@@ -272,7 +272,7 @@ def build_case(case):
         elif entry == "task":
             tail += ["def entry(boom=0):"] + ent + ["", "@event_trigger('go')", "def starter(boom=0, **kw):", "    task.create(entry, boom=boom)"]
         elif entry == "done_cb":
-            tail += ["def entry(boom=0):"] + ent + ["", "def job():", "    return 5", "", "@event_trigger('go')", "def starter(boom=0, **kw):", "    t = task.create(job)", "    task.add_done_callback(t, entry, boom)", "    task.wait({t})", "    vf.rec('starter_done')"]
+            tail += ["def entry(boom=0):"] + ent + ["", "def job():", "    return 5", "", "@event_trigger('go')", "def starter(boom=0, **kw):", "    t = task.create(job)", "    task.add_done_callback(t, entry, boom)", "    task.add_done_callback(t, after_cb)", "    task.wait({t})", "    vf.rec('starter_done')", "", "def after_cb():", "    vf.rec('after_cb')"]
     if entry == "state_expr":
         tail += ["@state_trigger('1 // int(pyscript.d) >= 0')", "def entry(**kw):", "    vf.rec('served', boom=0)"]
     elif entry == "active_expr":
@@ -608,6 +608,9 @@ def run_case(case):
                 else:
                     obs["later_occurrences_served"] += 1
             if viol:
+                return
+            if entry == "done_cb" and len([r for r in w.rec[r0:] if r["tag"] == "after_cb"]) != 1:
+                viol.append({"mech": "callback_fault_disturbed_other_callback", "msg": f"occurrence {rnd}: the done-callback registered after the faulting one ran {len([r for r in w.rec[r0:] if r['tag'] == 'after_cb'])} times"})
                 return
             if entry == "done_cb" and not [r for r in w.rec[r0:] if r["tag"] == "starter_done"]:
                 viol.append({"mech": "callback_fault_disturbed_waiter", "msg": f"occurrence {rnd}: the function waiting for the task did not finish"})
